@@ -440,7 +440,7 @@ def decode(mtype: int, body: bytes, neg):
     from exabgp.bgp.message import Message, Notify
 
     try:
-        msg = Message.unpack(mtype, body, neg)
+        msg = Message.unpack(mtype, memoryview(body), neg)  # a memoryview, as Connection.reader hands the body over
         if mtype == 2 and not getattr(msg, 'IS_EOR', False):
             msg.data  # noqa: B018 - the lazy parse
         return msg, ['decoded', type(msg).__name__]
